@@ -424,8 +424,11 @@ def discharge(ctx, I, s, handles, need):
         shape = rg[0] == 'agg' and rg[1] == 'std::ops::Range'
         if shape:
             st_, en = strip_casts(dict(rg[3])['start']), strip_casts(dict(rg[3])['end'])
-            shape = st_[0] == 'bin' and st_[1] == 'Mul' and en[0] == 'bin' and en[1] == 'Add' and strip_casts(en[2]) == st_ and \
-                any(x[0] == 'call' and x[1].endswith('pixels_per_tile') for x in walk(st_)) and any(is_param_path(x, 3, ['0']) for x in walk(st_))
+            import poly as PL
+            ps_, pe_ = PL.poly(st_), PL.poly(en)
+            ppt_ = [a for k in ps_ for a in k if a[0] == 'call' and a[1].endswith('pixels_per_tile')]
+            shape = bool(ppt_) and ps_ == PL.make((1, ppt_[0], ('field', ('param', 3, 'tile_id'), '0'))) and \
+                pe_ == PL.make((1, ppt_[0], ('field', ('param', 3, 'tile_id'), '0')), (1, ppt_[0]))
         # callers pass (pixels of the layer's tileset, its tile size, a tile of a validated tilemap)
         return U('U4', ok_ and shape, 'pixels[ppt*id .. ppt*id + ppt] with id < tile_count and pixels.len() = tile_count*ppt: ' + why)
     if fn == AF + 'tilemap':
@@ -450,8 +453,11 @@ def discharge(ctx, I, s, handles, need):
             return U('U4', ok4 and u16s and shape, 'canvas size (<= 65535) + tile size (zero-extended u16) computed in %s cannot overflow: %s' % (d.get('ty'), why4))
         if kind == 'overflow:Sub':
             a_ = strip_casts(d['a_term'])
-            shape = d.get('ty') in ('u32', 'u64', 'usize') and d.get('b') == (1, 1) and a_[0] == 'bin' and a_[1] == 'Add' and \
-                (from_ts(a_[2]) or from_ts(a_[3]))
+            # (canvas + tile) - 1 or (tile - 1): the minuend contains the tile size (>= 1) as a positive summand
+            import poly as PL
+            pa = PL.poly(a_)
+            shape = d.get('ty') in ('u32', 'u64', 'usize') and d.get('b') == (1, 1) and all(v > 0 for v in pa.values()) and \
+                any(len(k) == 1 and v >= 1 and from_ts(k[0]) for k, v in pa.items())
             return U('U4', ok4 and u16s and shape, '(canvas + tile size) - 1 with tile size >= 1 does not underflow: ' + why4)
         if kind == 'div0':
             shape = d.get('term') is not None and from_ts(d['term'])
